@@ -41,6 +41,7 @@ type row struct {
 	Mode     string   `json:"mode"`
 	Ctxs     []string `json:"ctxs"`
 	UpFails  []bool   `json:"upFails"`
+	UpForm   []int    `json:"upForm"` // 0: one up command; 1..3: three commands, the failing one (if up fails) at that position
 	Runs     []shape  `json:"runs"`
 	Seq      bool     `json:"seq"`
 	Finished bool     `json:"finished"`
@@ -54,6 +55,7 @@ func randomCase(rng *rand.Rand, maxK int) row {
 	for i := 1; i <= nc; i++ {
 		r.Ctxs = append(r.Ctxs, fmt.Sprintf("c%d", i))
 		r.UpFails = append(r.UpFails, rng.Intn(6) == 0)
+		r.UpForm = append(r.UpForm, rng.Intn(4))
 	}
 	k := 1 + rng.Intn(maxK)
 	for i := 0; i < k; i++ {
@@ -105,14 +107,37 @@ func buildTask(i int, s shape, log string) *task.Task {
 	return t
 }
 
+// upCommands: the start-up commands of context j. The up token is written by the last command;
+// with form 1..3 there are three commands and a failing start-up fails at that position (the
+// commands after it still run - Up keeps going - but the start-up has failed).
+func upCommands(r row, j int, log string) []string {
+	c := r.Ctxs[j]
+	tokc := echo("up."+c, log)
+	form := 0
+	if j < len(r.UpForm) {
+		form = r.UpForm[j]
+	}
+	if form == 0 {
+		if r.UpFails[j] {
+			return []string{"sleep 0.02; " + tokc + "; exit 1"}
+		}
+		return []string{"sleep 0.02; " + tokc}
+	}
+	cmds := []string{"sleep 0.01", "sleep 0.01", tokc}
+	if r.UpFails[j] {
+		if form == 3 {
+			cmds[2] = tokc + "; exit 1"
+		} else {
+			cmds[form-1] = "exit 1"
+		}
+	}
+	return cmds
+}
+
 func buildContexts(r row, log string) map[string]*runner.ExecutionContext {
 	m := map[string]*runner.ExecutionContext{}
 	for j, c := range r.Ctxs {
-		up := "sleep 0.02; " + echo("up."+c, log)
-		if r.UpFails[j] {
-			up += "; exit 1"
-		}
-		m[c] = runner.NewExecutionContext(nil, "", variables.NewVariables(), []string{up}, []string{echo("down."+c, log)},
+		m[c] = runner.NewExecutionContext(nil, "", variables.NewVariables(), upCommands(r, j, log), []string{echo("down."+c, log)},
 			[]string{echo("cb."+c, log)}, []string{echo("ca."+c, log)})
 	}
 	return m
@@ -222,11 +247,11 @@ func yamlFor(r row, log string) string {
 	var b strings.Builder
 	b.WriteString("contexts:\n")
 	for j, c := range r.Ctxs {
-		up := "sleep 0.02; " + echo("up."+c, log)
-		if r.UpFails[j] {
-			up += "; exit 1"
+		var ups []string
+		for _, u := range upCommands(r, j, log) {
+			ups = append(ups, fmt.Sprintf("%q", u))
 		}
-		fmt.Fprintf(&b, "  %s:\n    up: [%q]\n    down: [%q]\n    before: [%q]\n    after: [%q]\n", c, up, echo("down."+c, log), echo("cb."+c, log), echo("ca."+c, log))
+		fmt.Fprintf(&b, "  %s:\n    up: [%s]\n    down: [%q]\n    before: [%q]\n    after: [%q]\n", c, strings.Join(ups, ", "), echo("down."+c, log), echo("cb."+c, log), echo("ca."+c, log))
 	}
 	b.WriteString("  unused:\n")
 	fmt.Fprintf(&b, "    up: [%q]\n    down: [%q]\n", echo("up.unused", log), echo("down.unused", log))
@@ -244,11 +269,20 @@ func yamlFor(r row, log string) string {
 			fmt.Fprintf(&b, "    after: [%q]\n", t.After[0])
 		}
 	}
-	b.WriteString("pipelines:\n  p:\n")
-	for i := range r.Runs {
-		fmt.Fprintf(&b, "    - task: r%d\n      allow_failure: true\n", i+1)
-		if i > 0 {
-			fmt.Fprintf(&b, "      depends_on: [r%d]\n", i)
+	// p: every run, chained; pre<k>: the first k runs, chained (used as a first target followed by
+	// the remaining runs as task targets)
+	b.WriteString("pipelines:\n")
+	for k := len(r.Runs); k >= 1; k-- {
+		name := fmt.Sprintf("pre%d", k)
+		if k == len(r.Runs) {
+			name = "p"
+		}
+		fmt.Fprintf(&b, "  %s:\n", name)
+		for i := 0; i < k; i++ {
+			fmt.Fprintf(&b, "    - task: r%d\n      allow_failure: true\n", i+1)
+			if i > 0 {
+				fmt.Fprintf(&b, "      depends_on: [r%d]\n", i)
+			}
 		}
 	}
 	return b.String()
@@ -312,10 +346,28 @@ func Check(env *core.Env, rep *core.Report) *core.Result {
 			log := filepath.Join(d, "log")
 			_ = ioutil.WriteFile(filepath.Join(d, "tasks.yaml"), []byte(yamlFor(r, log)), 0o644)
 			usePipe := rng.Intn(3) == 0
+			mixed := !usePipe && len(r.Runs) >= 2 && rng.Intn(2) == 0
 			var args []string
 			if usePipe {
 				r.Mode = "cli-pipeline"
 				args = []string{"--raw", "p"}
+			} else if mixed {
+				// a pipeline of the first k runs (its stages allow failure) followed by the other runs as
+				// task targets: the contexts are shut down after the LAST target
+				r.Mode = "cli-pipeline-then-targets"
+				k := 1 + rng.Intn(len(r.Runs)-1)
+				full := yamlFor(r, log) // pipelines pre<k> are defined for the full list of runs
+				_ = ioutil.WriteFile(filepath.Join(d, "tasks.yaml"), []byte(full), 0o644)
+				args = []string{"--raw", fmt.Sprintf("pre%d", k)}
+				cut := len(r.Runs)
+				for j := k; j < len(r.Runs); j++ {
+					args = append(args, fmt.Sprintf("r%d", j+1))
+					if expectedRet(r, j) == "err" {
+						cut = j + 1
+						break
+					}
+				}
+				r.Runs = r.Runs[:cut]
 			} else {
 				r.Mode = "cli-targets"
 				args = []string{"--raw"}
@@ -341,7 +393,7 @@ func Check(env *core.Env, rep *core.Report) *core.Result {
 			}
 			if res.TimedOut || res.Crashed() {
 				rep.Add(core.Finding{Prop: "C14", Key: "C14:" + r.Mode + ":crash-or-hang", What: "taskctl crashed or hung", Detail: map[string]interface{}{"yaml": yamlFor(r, log), "stderr": res.Stderr}})
-			} else if !usePipe && (res.Exit != 0) != anyErr {
+			} else if !usePipe && !mixed && (res.Exit != 0) != anyErr {
 				rep.Add(core.Finding{Prop: "C14", Key: "C14:" + r.Mode + ":exit-status", What: fmt.Sprintf("exit status %d, a run reporting an error expected=%v", res.Exit, anyErr), Detail: map[string]interface{}{"yaml": yamlFor(r, log), "stderr": res.Stderr}})
 			}
 			// the unused context must not be started or shut down
